@@ -160,7 +160,14 @@ let register () =
       | [enable; meth; user; pass; hdrs; md5t; b64t] ->
         let c = { AuthRtsp.rc_enable = bool_of_token enable; rc_method = z_of_token meth;
                   rc_user = bytes_of_token user; rc_pass = bytes_of_token pass } in
-        let rs = AuthRtsp.describe_session_gen (fn_total "md5" md5t) (fn_opt "b64" b64t) fixed fixed c AuthRtsp.auth_zero (hdr_list hdrs) in
+        (* request list: N = DESCRIBE without Authorization, A / R = ANNOUNCE the observer accepts / refuses, else DESCRIBE with that header *)
+        let reqs = if hdrs = "-" then [] else Stdlib.List.map (fun h ->
+            if h = "A" then AuthRtsp.RqAnnounce true else if h = "R" then AuthRtsp.RqAnnounce false
+            else AuthRtsp.RqDescribe (if h = "N" then [] else bytes_of_token h)) (String.split_on_char ',' hdrs) in
+        let rs =
+          if fixed then AuthRtsp.rtsp_conn (fn_total "md5" md5t) (fn_opt "b64" b64t) c AuthRtsp.auth_zero false reqs
+          else AuthRtsp.describe_session_gen (fn_total "md5" md5t) (fn_opt "b64" b64t) false false c AuthRtsp.auth_zero
+              (Stdlib.List.map (function AuthRtsp.RqDescribe h -> h | _ -> failwith "pinned model has no ANNOUNCE") reqs) in
         if rs = [] then "-" else String.concat "," (Stdlib.List.map (fun r -> token_of_n (AuthRtsp.dr_code r)) rs)
       | _ -> "bad-args");
   Registry.register "c14.clean" (function
